@@ -149,4 +149,66 @@ func TestVerifWitness_D26(t *testing.T) {
 	}
 }
 
+// DP1: a quoted timestamp in Set() kept its quotes.
+func TestVerifWitness_DP1(t *testing.T) {
+	want := &Call{Name: "Set", Args: map[string]interface{}{"_col": int64(1), "f": int64(2), "_timestamp": "2017-01-01T00:00"}}
+	vc26Witness(t, `Set(1, f=2, 2017-01-01T00:00)`, want)
+	vc26Witness(t, `Set(1, f=2, "2017-01-01T00:00")`, want)
+	vc26Witness(t, `Set(1, f=2, '2017-01-01T00:00')`, want)
+}
+
+// DP2: true/false/null directly before the closing bracket of a list were parsed as bare-word strings.
+func TestVerifWitness_DP2(t *testing.T) {
+	vc26Witness(t, `Foo(a=[true,true])`, &Call{Name: "Foo", Args: map[string]interface{}{"a": []interface{}{true, true}}})
+	vc26Witness(t, `Foo(a=[null], b=[1, false ])`, &Call{Name: "Foo", Args: map[string]interface{}{"a": []interface{}{nil}, "b": []interface{}{int64(1), false}}})
+}
+
+// DP3: `a < f < b` wrapped around at the int64 limits and ignored out-of-range bounds.
+func TestVerifWitness_DP3(t *testing.T) {
+	for _, text := range []string{`Row(9223372036854775807 < f < 10)`, `Row(0 < f < -9223372036854775808)`, `Row(99999999999999999999 < f < 5)`, `Row(1 <= f <= 99999999999999999999)`} {
+		q, err, pv := vc26Parse(text)
+		if pv != nil {
+			t.Fatalf("ParseString(%q) panicked: %v", text, pv)
+		}
+		if err != nil {
+			continue
+		}
+		cond, _ := q.Calls[0].Args["f"].(*Condition)
+		l, _ := cond.Value.([]interface{})
+		if len(l) != 2 || l[0].(int64) <= l[1].(int64) {
+			t.Fatalf("ParseString(%q): no int64 satisfies the written condition, parsed as %s", text, vc26Dump(q.Calls[0]))
+		}
+	}
+	vc26Witness(t, `Row(-9223372036854775808 < f < 9223372036854775807)`, &Call{Name: "Row", Args: map[string]interface{}{
+		"f": &Condition{Op: BETWEEN, Value: []interface{}{int64(-9223372036854775807), int64(9223372036854775806)}}}})
+}
+
+// DP4: escapes in a double-quoted positional column / row key were not decoded.
+func TestVerifWitness_DP4(t *testing.T) {
+	vc26Witness(t, `Set("a\"b", f="a\"b")`, &Call{Name: "Set", Args: map[string]interface{}{"_col": `a"b`, "f": `a"b`}})
+	vc26Witness(t, `SetRowAttrs(f, "\\", x=1)`, &Call{Name: "SetRowAttrs", Args: map[string]interface{}{"_field": "f", "_row": `\`, "x": int64(1)}})
+	vc26Witness(t, `SetColumnAttrs("\u00e9", x=1)`, &Call{Name: "SetColumnAttrs", Args: map[string]interface{}{"_col": "é", "x": int64(1)}})
+}
+
+// DP5: a double-quoted string with a raw newline (in the grammar) silently became "".
+func TestVerifWitness_DP5(t *testing.T) {
+	vc26Witness(t, "SetRowAttrs(f, 1, note=\"line1\nline2\")", &Call{Name: "SetRowAttrs", Args: map[string]interface{}{"_field": "f", "_row": int64(1), "note": "line1\nline2"}})
+	// an invalid escape has no value: it must be rejected, not read as ""
+	q, err, pv := vc26Parse(`Row(f="\q")`)
+	if pv != nil {
+		t.Fatalf("panic: %v", pv)
+	}
+	if err == nil {
+		if v, _ := q.Calls[0].Args["f"].(string); v == "" {
+			t.Fatalf(`Row(f="\q") was accepted with f=""`)
+		}
+	}
+}
+
+// DP6: a condition whose list holds a non-numeric item failed with a runtime.TypeAssertionError.
+func TestVerifWitness_DP6(t *testing.T) {
+	vc26Witness(t, `Row(f >< [null])`, &Call{Name: "Row", Args: map[string]interface{}{"f": &Condition{Op: BETWEEN, Value: []interface{}{nil}}}})
+	vc26Witness(t, `Row(f == ["a", 1, true, x])`, &Call{Name: "Row", Args: map[string]interface{}{"f": &Condition{Op: EQ, Value: []interface{}{"a", int64(1), true, "x"}}}})
+}
+
 var _ = fmt.Sprint
